@@ -20,6 +20,7 @@ func init() {
 var wPosition = map[string]string{"insert": "node", "delete": "node", "getBlockProof": "node", "markToCollect": "node"}
 
 func runC09(r *engine.Run) {
+	r.Rule("AGREE-kvops", "see C11: the adapter's batch Put and Delete run under the batch mutex (Commit saves the root's dirty subtrees from several goroutines into one batch)")
 	r.Rule("AGREE-purge", "see C11: a hash that a commit writes again is taken off every list DeleteNodes feeds storage deletes from (a node deleted and re-created identically between two collection passes is one live record: collecting it makes the ownership query of its key fail after a reload)")
 	r.Rule("PRESENCE-byweight", "no comparison in core/util/wmpt takes a weight of 0 for absence (a weight compared with the constant 0): entries of weight 0 are entries whose hashes their ancestors commit to - a checkpoint copy that skips them, or a rollback that takes a zero-weight root for the empty trie, no longer stands for the checkpoint state")
 	r.Rule("ORDER-hashfresh", "see C10: a node's serialised form never embeds a cached hash that may be stale (Save hashes before it encodes): a reloaded value node hands its parent the recorded hash, so a stale one makes the root differ from the independent computation")
@@ -96,6 +97,7 @@ func runC09(r *engine.Run) {
 	orderHashFresh(r, "ORDER-hashfresh")
 	presenceByWeight(r, "PRESENCE-byweight")
 	agreePurge(r)
+	kvAdapter(r, "AGREE-kvops")
 }
 
 func wfn(r *engine.Run, rule, name string) *ssa.Function {
